@@ -16,6 +16,7 @@ import (
 
 	"github.com/google/uuid"
 	"google.golang.org/grpc/status"
+	"net/http"
 
 	"go.6river.tech/mmmbbb/actions"
 	"go.6river.tech/mmmbbb/grpc/pubsubpb"
@@ -73,6 +74,81 @@ func c16StreamRequests() []c16StreamReq {
 	out = append(out, c16StreamReq{Sub: S, Deadline: 10, MaxMsgs: 1, MaxBytes: 14, Then: &c16StreamReq{Sub: S, MaxMsgs: 5, MaxBytes: 5}})
 	out = append(out, c16StreamReq{Sub: S, Deadline: 10, MaxMsgs: 1, MaxBytes: 14, Then: &c16StreamReq{Sub: SubName("unknown"), Deadline: -5}})
 	return out
+}
+
+// c16PushRequests: CreateSubscription requests that configure a push endpoint, with boundary values of
+// the retry policy; when the request is accepted the push service would start a pusher for the
+// subscription, which is what the child then does
+func c16PushRequests() []Rpc {
+	var out []Rpc
+	T := TopicName("t")
+	k := 0
+	for _, d := range []*int64{nil, p64(0), p64(1), p64(2), p64(int64(time.Millisecond)), p64(int64(time.Second)), p64(int64(600 * time.Second)), p64(-int64(time.Second))} {
+		for _, which := range []string{"min", "max", "both"} {
+			k++
+			r := &SubReq{Name: SubName(fmt.Sprintf("push%d", k)), Topic: T, Push: &PushCfg{Endpoint: "http://push.test/x"}, HasRetry: true}
+			switch which {
+			case "min":
+				r.RetryMin = d
+			case "max":
+				r.RetryMax = d
+			default:
+				r.RetryMin, r.RetryMax = d, d
+			}
+			out = append(out, Rpc{Kind: "createSub", Sub: r})
+		}
+	}
+	return out
+}
+
+// c16PushOne: the request through the handler; when it is accepted, the pusher the push service starts
+// for such a subscription runs for two (virtual) seconds with one message to push
+func c16PushOne(t *testing.T, rq Rpc) (st string, problem string) {
+	synctest.Test(t, func(t *testing.T) {
+		w := NewWorld(t, 1)
+		defer w.Close()
+		w.Exec(Op{K: "create_topic", Topic: "t"})
+		rr := w.Api().ExecRpc(rq)
+		st = rr.Status
+		if rr.Panic != "" {
+			problem = "handler panicked: " + rr.Panic
+			return
+		}
+		if rr.Status != "OK" {
+			return
+		}
+		sub, err := w.Client.Subscription.Query().Only(qctx)
+		if err != nil {
+			problem = "accepted, but the subscription cannot be read back: " + err.Error()
+			return
+		}
+		w.Exec(Op{K: "publish", Topic: "t", Msgs: []MsgSpec{{N: 0}}})
+		w.Ctl.mu.Lock()
+		w.Ctl.tick = 0
+		w.Ctl.mu.Unlock()
+		rt := &scriptedRT{reqs: make(chan *pushReq, 16)}
+		ctx, cancel := context.WithCancel(WithLabel(context.Background(), "stream"))
+		defer cancel()
+		w.Ctl.SpinGuard("stream", 400)
+		pusher := actions.NewHttpPusher(sub.Name, sub.ID, "http://push.test/x", &http.Client{Transport: rt}, w.Client)
+		done := make(chan error, 1)
+		go func() { done <- pusher.Go(ctx) }()
+		synctest.Wait()
+		for i := 0; i < 4; i++ {
+			select {
+			case r := <-rt.reqs:
+				r.respond <- pushResp{code: 204}
+			default:
+			}
+			time.Sleep(500 * time.Millisecond)
+			synctest.Wait()
+		}
+		w.Ctl.SpinGuard("", 0)
+		cancel()
+		w.Ctl.SpinReset()
+		synctest.Wait()
+	})
+	return
 }
 
 // c16StreamOne runs one request against a fresh server; returns the status of the stream (or
@@ -158,13 +234,19 @@ func TestC16StreamChild(t *testing.T) {
 	from := envInt("C16_STREAM_FROM", 0)
 	only := envInt("C16_STREAM_ONLY", -1)
 	reqs := c16StreamRequests()
-	for i := from; i < len(reqs); i++ {
+	pushes := c16PushRequests()
+	for i := from; i < len(reqs)+len(pushes); i++ {
 		if only >= 0 && i != only {
 			continue
 		}
 		fmt.Printf("C16S start %d\n", i)
 		os.Stdout.Sync()
-		st, problem := c16StreamOne(t, reqs[i])
+		var st, problem string
+		if i < len(reqs) {
+			st, problem = c16StreamOne(t, reqs[i])
+		} else {
+			st, problem = c16PushOne(t, pushes[i-len(reqs)])
+		}
 		fmt.Printf("C16S done %d %s %s\n", i, st, strings.ReplaceAll(problem, "\n", " "))
 		os.Stdout.Sync()
 	}
@@ -172,7 +254,20 @@ func TestC16StreamChild(t *testing.T) {
 
 // c16Streams drives the child; a child that dies names the request that killed it.
 func c16Streams(t *testing.T, st *Stats) {
-	reqs := c16StreamRequests()
+	var reqs []interface{}
+	for _, r := range c16StreamRequests() {
+		reqs = append(reqs, r)
+	}
+	nStream := len(reqs)
+	for _, r := range c16PushRequests() {
+		reqs = append(reqs, r)
+	}
+	setupOf := func(i int) string {
+		if i < nStream {
+			return "topic t, subscription s, two published 14-byte messages; StreamingPull with this initial request (and `then` as a second request)"
+		}
+		return "topic t; this CreateSubscription request through the handler; when it is accepted, one message is published and the pusher that the push service starts for a push subscription runs (actions.NewHttpPusher(...).Go) for two seconds"
+	}
 	from := 0
 	for from < len(reqs) {
 		cmd := exec.Command(os.Args[0], "-test.run", "^TestC16StreamChild$", "-test.timeout", "600s")
@@ -204,9 +299,9 @@ func c16Streams(t *testing.T, st *Stats) {
 					js, _ := json.Marshal(reqs[i])
 					p := ReplayPath(fmt.Sprintf("C16-stream-wedged-%d.json", i))
 					b, _ := json.MarshalIndent(map[string]interface{}{"property": "C16", "sig": "stream-wedged", "request": reqs[i], "what": f[4],
-						"setup": "topic t, subscription s, two published 14-byte messages; StreamingPull with this initial request (and `then` as a second request)"}, "", " ")
+						"setup": setupOf(i)}, "", " ")
 					os.WriteFile(p, b, 0o644)
-					st.Violate(Violation{What: fmt.Sprintf("[stream-wedged] StreamingPull request %s: %s", js, f[4]), Replay: p, FoundInput: true, Sig: "stream-wedged"})
+					st.Violate(Violation{What: fmt.Sprintf("[stream-wedged] request %s: %s", js, f[4]), Replay: p, FoundInput: true, Sig: "stream-wedged"})
 					return
 				}
 			}
@@ -223,9 +318,13 @@ func c16Streams(t *testing.T, st *Stats) {
 			msg = strings.ReplaceAll(msg, "\n", " ")
 			p := ReplayPath(fmt.Sprintf("C16-stream-crash-%d.json", inFlight))
 			b, _ := json.MarshalIndent(map[string]interface{}{"property": "C16", "sig": "crash-streamingPull", "request": reqs[inFlight], "what": msg,
-				"setup": "topic t, subscription s, two published 14-byte messages; StreamingPull with this initial request (and `then` as a second request)"}, "", " ")
+				"setup": setupOf(inFlight)}, "", " ")
 			os.WriteFile(p, b, 0o644)
-			st.Violate(Violation{What: fmt.Sprintf("[crash-streamingPull] StreamingPull request %s terminates the server process: %s", js, msg), Replay: p, FoundInput: true, Sig: "crash-streamingPull"})
+			kind := "StreamingPull"
+			if inFlight >= nStream {
+				kind = "CreateSubscription (push)"
+			}
+			st.Violate(Violation{What: fmt.Sprintf("[crash-streamingPull] %s request %s terminates the server process (%s): %s", kind, js, setupOf(inFlight), msg), Replay: p, FoundInput: true, Sig: "crash-streamingPull"})
 			return
 		}
 		if runErr != nil && last < len(reqs)-1 {
